@@ -45,6 +45,7 @@ const (
 	EvUnpark                    // gate released (Str)
 	EvBrokerSend                // broker enqueued bytes for the client (Conn, Data)
 	EvPacket                    // broker completed reception of a packet (Conn, N = index in ConnState.Packets)
+	EvYield                     // a traced hook point was passed (Str)
 	EvNote
 )
 
@@ -52,7 +53,7 @@ var kindNames = map[Kind]string{EvDial: "dial", EvDialRet: "dial-ret", EvWrite: 
 	EvRead: "read", EvReadPark: "read-park", EvReadErr: "read-err", EvSetWDL: "set-wdl", EvSetRDL: "set-rdl",
 	EvConnClose: "conn-close", EvConnBreak: "conn-break", EvStore: "store", EvAppStart: "app-start", EvAppRet: "app-ret",
 	EvCallStart: "call-start", EvCallRet: "call-ret", EvPark: "park", EvUnpark: "unpark", EvBrokerSend: "broker-send",
-	EvPacket: "packet", EvNote: "note"}
+	EvPacket: "packet", EvNote: "note", EvYield: "yield"}
 
 // Event is one entry of the log.
 type Event struct {
@@ -424,6 +425,9 @@ func (w *World) yield(point string) {
 	}
 	g := w.gate(point)
 	g.hits++
+	if tracedPoints[point] {
+		w.log(Event{Kind: EvYield, Str: point})
+	}
 	if g.armed == 0 {
 		return
 	}
@@ -440,6 +444,9 @@ func (w *World) yield(point string) {
 	g.unparks++
 	w.log(Event{Kind: EvUnpark, Str: point})
 }
+
+// tracedPoints are logged whenever they are passed.
+var tracedPoints = map[string]bool{"connect.release": true, "offline.enter": true}
 
 // ArmGate makes the next goroutine which passes the hook point park there.
 func (w *World) ArmGate(point string) {
